@@ -6,13 +6,14 @@ import random
 
 import c18_lib as L
 import c18_ref as REF
+import c18_wrap as W
 from framework import pmap
 
 ID = 'C18'
 LEAN_MODULES = ['Pfst.Props.C18']
 LEAN_DEPS = ['Pfst.Sub', 'Pfst.SubLemmas']
 THEOREMS = ['Pfst.C18.sub_spec', 'Pfst.C18.sub_counts', 'Pfst.C18.sub_counts_cap', 'Pfst.C18.sub_frame',
-            'Pfst.C18.sub_frame_kids', 'Pfst.C18.sub_frame_node', 'Pfst.C18.sub_identity', 'Pfst.C18.sub_nested_id',
+            'Pfst.C18.sub_frame_kids', 'Pfst.C18.sub_frame_node', 'Pfst.C18.sub_identity', 'Pfst.C18.sub_nested_id', 'Pfst.C18.sub_wrapper',
             'Pfst.C18.nested_dirty_kept', 'Pfst.C18.edge_item', 'Pfst.C18.edge_item_virtual', 'Pfst.C18.edge_item_empty',
             'Pfst.C18.ex_nested']
 RULE = ('generated small programs (calls, lists, tuples, operators, attributes, subscripts, conditional expressions, nested '
@@ -27,6 +28,11 @@ RULE = ('generated small programs (calls, lists, tuples, operators, attributes, 
         'loop in {1,2,3,4,6,True}; virtual fields: calls and class definitions whose positional, *starred, keyword and **kw '
         'arguments interleave in every legal order, quantifier captures over Call._args / ClassDef._bases / Call.keywords / '
         'Call.args whose first and last element is of each kind, templates with the slice in a call or class argument list; '
+        'expr_context: the same names in Load/Store/Del positions with AST and M-patterns whose ctx INSTANCE discriminates, '
+        'ctx in {False, True} (compared modulo ctx, C01 judges the contexts); wrappers: a deterministic product of 11 scenarios x '
+        'every forwarded parameter (ctx, nested, count, loop, on, back, scope, self_, recurse, asts, callback, callback_after, '
+        'copy_options/repl_options incl. explicit {}, **options) x entry points (sub method, fst.match.sub, FST.sub unbound, '
+        'fst.match.subn, python -m fst.cli.sub with argv): each must equal subn() with the same arguments; '
         'plus the documentation examples as directed cases. (a) correspondence: tree, per-node match results of the REAL matcher and the '
         'template are translated into the Lean model; when the model asks about a tree that did not exist in the input (leave, '
         'loop) the real matcher is asked and the case re-run; result tree (ctx kept) and both counts compared with the real subn. '
@@ -116,7 +122,7 @@ def _prepare0(job):
             k = L.gen_key(g)
             if k in table:
                 continue
-            m = f.match(pat)
+            m = f.match(pat, ctx=job['set'].get('ctx', False))
             nmatch += m is not None
             table[k] = (g, L.env_of(m, tags) if m else None)
     except L.Unmodelled as e:
@@ -176,7 +182,7 @@ def _extend0(arg):
                 # Python source cannot be re-created from a bare AST with interleaved keywords / starred arguments
                 st['skip'] = 'intermediate tree cannot be rebuilt in the same argument order'
                 return st
-            m = f.match(pat)
+            m = f.match(pat, ctx=st['set'].get('ctx', False))
             env = L.env_of(m, tags) if m else None
         except L.Unmodelled as e:
             st['skip'] = 'capture outside the modelled set: ' + str(e)
@@ -195,7 +201,7 @@ def _subn(job):
     root = FST(job['src'], 'exec')
     pat = L.make_pattern(job['pat'])
     s = job['set']
-    r = root.subn(pat, job['tmpl'], s['nested'], count=s['count'], loop=s['loop'], on=s['on'])
+    r = root.subn(pat, job['tmpl'], s['nested'], count=s['count'], loop=s['loop'], on=s['on'], ctx=s.get('ctx', False))
     return root, r[1], r[2]
 
 
@@ -285,7 +291,8 @@ def run_model(ctx, states):
 def correspondence(ctx):
     rng = random.Random(ctx.rng.random())
     jobs = [dict(j) for j in L.DIRECTED] + L.gen_jobs(rng, 800 if ctx.quick else 9000, string_slots=False) \
-        + L.gen_chain_jobs(rng, 300 if ctx.quick else 3000) + L.gen_arglike_jobs(rng, 250 if ctx.quick else 2500)
+        + L.gen_chain_jobs(rng, 300 if ctx.quick else 3000) + L.gen_arglike_jobs(rng, 250 if ctx.quick else 2500) \
+        + L.gen_ctx_jobs(rng, 120 if ctx.quick else 1200)
     k = max(1, len(jobs) // 32)
     rng.shuffle(jobs)
     results = [r for lst in pmap(_pipeline_chunk, [jobs[i:i + k] for i in range(0, len(jobs), k)], chunksize=1) for r in lst]
@@ -337,7 +344,12 @@ def correspondence(ctx):
             if s['set']['loop'] is not False:
                 ctx.tally('corr_loop', f'loop={s["set"]["loop"]} unique={res["unique"]} total={res["total"]}'
                           if res['total'] > res['unique'] else f'loop={s["set"]["loop"]} no re-application')
-            if len(res['trees']) != 1 or res['trees'][0] != r['tree']:
+            mt, rt_ = res['trees'], r['tree']
+            if 'ctx' in s['set']:
+                # a template put into a Store/Del position takes that context (C01 judges it in the sweep); the model
+                # keeps the template's labels: compare modulo expr_context for the jobs that target such positions
+                mt, rt_ = [L.strip_ctx(t) for t in mt], L.strip_ctx(rt_)
+            if len(mt) != 1 or mt[0] != rt_:
                 what = 'result trees differ'
             elif res['unique'] != r['unique'] or res['total'] != r['total']:
                 what = f'counts differ: model {(res["unique"], res["total"])} pfst {(r["unique"], r["total"])}'
@@ -423,7 +435,7 @@ def _sweep_case0(job):
     info = {}
     try:
         ref, ru, rt, kept = REF.reference(root0, job['src'], pat, job['tmpl'], job['cat'], s['nested'], s['count'],
-                                          s['loop'], s['on'], info=info)
+                                          s['loop'], s['on'], info=info, ctx=s.get('ctx', False))
     except REF.Skip as e:
         res['skip'] = 'reference: ' + str(e)
         return res
@@ -476,12 +488,15 @@ def _sweep_case0(job):
                            {'expected_src_slots_unfilled': exp})
             return res
     g = L.to_gen(ref)
-    if not strslot and g != real['tree']:
+    rtree = real['tree']
+    if 'ctx' in s:
+        g, rtree = L.strip_ctx(g), L.strip_ctx(rtree)
+    if not strslot and g != rtree:
         cls = 'tree-differs'
         if s['nested'] and s['on'] == 'enter':
             try:
                 q, qu, qt, _ = REF.reference(root0, job['src'], pat, job['tmpl'], job['cat'], s['nested'], s['count'],
-                                             s['loop'], s['on'], quirk=True)
+                                             s['loop'], s['on'], quirk=True, ctx=s.get('ctx', False))
                 if L.to_gen(q) == real['tree'] and (qu, qt) == (real['unique'], real['total']):
                     cls = 'slice-no-descent'
             except Exception:
@@ -491,7 +506,7 @@ def _sweep_case0(job):
             # whole first..last range instead of the captured elements?
             try:
                 q, qu, qt, _ = REF.reference(root0, job['src'], pat, job['tmpl'], job['cat'], s['nested'], s['count'],
-                                             s['loop'], s['on'], range_fill=True)
+                                             s['loop'], s['on'], range_fill=True, ctx=s.get('ctx', False))
                 if L.to_gen(q) == real['tree'] and (qu, qt) == (real['unique'], real['total']):
                     cls = 'range-includes-uncaptured'
             except Exception:
@@ -538,7 +553,8 @@ def _fail_sig(job, cls):
 def sweep_jobs(ctx, n, layouts):
     import corpus
     rng = random.Random(ctx.rng.random())
-    jobs = L.gen_jobs(rng, n) + L.gen_chain_jobs(rng, n // 3, allow_nested=False) + L.gen_arglike_jobs(rng, n // 4)
+    jobs = L.gen_jobs(rng, n) + L.gen_chain_jobs(rng, n // 3, allow_nested=False) + L.gen_arglike_jobs(rng, n // 4) \
+        + L.gen_ctx_jobs(rng, n // 6)
     # the reference covers loop and nested separately
     for j in jobs:
         if j['set']['loop'] is not False and j['set']['nested'] and j['set']['on'] == 'enter':
@@ -589,7 +605,30 @@ def _report(ctx, results):
     return n
 
 
+def _wrap_sig(r, cls):
+    if cls == 'count-loop-not-forwarded':
+        return 'C18|wrapper|cli|count,loop|not-forwarded'
+    return f'C18|wrapper|{r["entry"]}|{r["params"]}|{cls}'
+
+
+def wrappers(ctx):
+    """every public entry point x every forwarded parameter against the core subn (deterministic product)"""
+    cs = W.cases()
+    results = pmap(W.run_case, cs, chunksize=max(1, len(cs) // 16))
+    for r in results:
+        ctx.count(('wrapper', r['scenario'], r['entry'], r['kw']), r.get('nsub', 0) > 0)
+        ctx.tally('wrapper_entry', r['entry'])
+        ctx.tally('wrapper_params', r['params'])
+        if 'fail' in r:
+            cls, what = r['fail']
+            ctx.fail(_wrap_sig(r, cls), what, {'wrapper': r['case'], 'scenario': r['scenario'], 'entry': r['entry'],
+                                               'kw': r['kw']})
+    ctx.notes['wrapper_cases'] = len(results)
+    ctx.exhaustive = None
+
+
 def sweep(ctx):
+    wrappers(ctx)
     jobs = sweep_jobs(ctx, 700 if ctx.quick else 7500, True)
     results = pmap(_sweep_case, jobs, chunksize=max(1, len(jobs) // 32))
     n = _report(ctx, results)
@@ -617,6 +656,11 @@ def replay(ctx, data):
     w = data.get('witness')
     if not w:
         print('replay names a broken obligation:', data.get('broken'))
+        return
+    if 'wrapper' in w:
+        r = W.run_case(w['wrapper'])
+        if 'fail' in r:
+            ctx.fail(_wrap_sig(r, r['fail'][0]), r['fail'][1], w)
         return
     job = {k: w[k] for k in ('src', 'pat', 'tmpl', 'set', 'cat', 'shape', 'placement')}
     r = _sweep_case(job)
